@@ -3,9 +3,10 @@
 
 // Add-only hook for property C07 (token conservation).  No behaviour: it only
 // builds a BlockChain value whose CurrentHeader() answers with a header chosen
-// by the harness, so that the real staking.EndBlock (sealing path, which asks
-// the chain for the parent height before it processes evidences) can run
-// without a consensus engine and a database-backed chain.
+// by the harness, so that a Staking value has a non-nil chain without a consensus
+// engine and a database-backed chain.  (Until ec9154c the sealing path of
+// staking.EndBlock asked it for the parent height; now the height comes from the
+// block's own header and the harness leaves this head at genesis.)
 package core
 
 import "github.com/youchainhq/go-youchain/core/types"
